@@ -30,7 +30,7 @@ ASSUMPTIONS = ['only the clause "a failed assembly never leaves behind an output
                'exception types under injected environment faults are recorded, not judged']
 COMPONENTS = {'real': ['flipjump.assemble (quickstart) -> assembler.assemble -> Writer.write_to_file -> '
                        'save_debugging_labels', 'fj_parser / preprocessor (sources are real files)', 'Reader + assert_runnable'],
-              'stub': ['the disk for output files (sim/simfs.py, name injection of `open`)',
+              'stub': ['fault-injecting open() around REAL output files (sim/simfs.py FaultFS, name injection of `open`; stat, exists and unlink are the real file system)',
                        'the interrupt source (sim/_verifsig.c)'],
               'oracle': ['state of the simulated disk after the failed call']}
 TIME_NOTE = 'the unit of simulated time is one file operation on the simulated disk'
@@ -64,9 +64,13 @@ def setup_worker():
     global FS, SRC_DIR, _sig
     if 'flipjump.interpreter.fjm_run' not in sys.modules:
         build.install_fjcore('plain')
-    FS = simfs.SimFS()
-    FS.install()
     from sim import case as C
+    global OUT, DBG, OUT_DIR
+    OUT_DIR = C.scratch_dir() / 'c14out'
+    OUT_DIR.mkdir(exist_ok=True)
+    OUT, DBG = str(OUT_DIR / 'out.fjm'), str(OUT_DIR / 'out.fjd')
+    FS = simfs.FaultFS(OUT_DIR)
+    FS.install()
     SRC_DIR = C.scratch_dir() / 'src'
     SRC_DIR.mkdir(exist_ok=True)
     for name, (stl, text) in list(PROGRAMS.items()) + list(FAILING.items()):
@@ -109,8 +113,7 @@ def gen(rng, index, tier):
             'debug': rng.random() < 0.7, 'preexisting': rng.random() < 0.5, 'seed': rng.getrandbits(32)}
 
 
-OUT = '/simfs/out.fjm'
-DBG = '/simfs/out.fjd'
+OUT = DBG = OUT_DIR = None
 OLD_PROGRAM = None
 
 
@@ -121,10 +124,11 @@ def old_program_bytes():
         from flipjump.fjm.fjm_writer import Writer
         from flipjump.fjm.fjm_consts import FJMVersion
         FS.plan = None
-        wr = Writer('/simfs/old.fjm', 32, FJMVersion.NormalVersion)
+        old = OUT_DIR / 'old.fjm'
+        wr = Writer(old, 32, FJMVersion.NormalVersion)
         wr.add_simple_segment_with_data(0, [77, 0, 0, 0])
         wr.write_to_file()
-        OLD_PROGRAM = FS.files['/simfs/old.fjm']
+        OLD_PROGRAM = old.read_bytes()
     return OLD_PROGRAM
 
 
@@ -149,12 +153,15 @@ def call_assemble(case, fault, instr_n=-1):
     from flipjump.fjm.fjm_consts import FJMVersion
     stl, _ = (FAILING if case['failing'] else PROGRAMS)[case['program']]
     FS.reset_log()
-    FS.files.pop(OUT, None)
-    FS.files.pop(DBG, None)
+    for p in (OUT, DBG):
+        try:
+            os.unlink(p)
+        except OSError:
+            pass
     before = None
     if case['preexisting']:
         before = old_program_bytes()
-        FS.files[OUT] = before
+        Path(OUT).write_bytes(before)
     FS.plan = fault
     raised = None
     returned = False
@@ -188,9 +195,9 @@ def call_assemble(case, fault, instr_n=-1):
 
 def judge(case, raised, before):
     """state of the output path after the call"""
-    if OUT not in FS.files:
+    if not os.path.exists(OUT):
         return 'absent'
-    cur = FS.files[OUT]
+    cur = Path(OUT).read_bytes()
     if before is not None and cur == before:
         return 'unchanged'
     return 'loadable' if loads(OUT) else 'not-loadable'
@@ -209,7 +216,7 @@ def run(case):
         # fault-free recording
         raised0, _, before = call_assemble(case, None)
         ops0 = list(FS.ops)
-        out_bytes = FS.files.get(OUT, b'')
+        out_bytes = Path(OUT).read_bytes() if os.path.exists(OUT) else b''
         state0 = judge(case, raised0, before)
         if case['failing']:
             evals += 1
